@@ -523,7 +523,32 @@ def check_rotation_chain_order(ctx: Check, tree: Tree) -> None:
             return "next" if "+ 1]" in txt.replace("+1]", "+ 1]") else "current"
         if root_index(mp, "m_prime") != "current" or root_index(sp_, "spin_projection") != "next":
             problems.append("m_prime / spin_projection do not use index k / k+1 of the counter")
-        ctx.verdict(not problems, "R-CHAINORDER", key, tree.loc(call), "axis-angle chain: recursion from the rotated state upwards (get_parent_id), pair k of indices carries the angles of the k-th state on the way up", problems or None)
+        # the counter: starts at 0 (index 0 is the helicity symbol the Wigner rotation / the amplitude connects to)
+        # and advances by exactly one per rotation; the recursion ends at the initial state (no parent)
+        frd = RD(fn.node)
+        counters = {n.value.id for k_ in call.keywords for n in ast.walk(k_.value) if False}
+        cnames = set()
+        for kw_ in call.keywords:
+            if kw_.arg in {"m_prime", "spin_projection"}:
+                for d in ord_.closure(ord_.uses(kw_.value)):
+                    if isinstance(d.value, ast.Subscript) and "__GREEK_INDEX_NAMES" in unparse(d.value.value):
+                        cnames |= {n.id for n in ast.walk(d.value.slice) if isinstance(n, ast.Name)}
+        if len(cnames) != 1:
+            problems.append(f"index counter not identified ({sorted(cnames)})")
+        else:
+            cn = next(iter(cnames))
+            inits = [n for n in walk_function(fn.node, nested=False) if isinstance(n, ast.Assign) and isinstance(n.targets[0], ast.Name) and n.targets[0].id == cn]
+            if not (len(inits) == 1 and isinstance(inits[0].value, ast.Constant) and inits[0].value.value == 0):
+                problems.append(f"the index counter `{cn}` does not start at 0")
+            incs = [n for n in walk_function(owner.node) if isinstance(n, ast.AugAssign) and isinstance(n.target, ast.Name) and n.target.id == cn]
+            if not (len(incs) == 1 and isinstance(incs[0].op, ast.Add) and isinstance(incs[0].value, ast.Constant) and incs[0].value.value == 1
+                    and not any(isinstance(a, (ast.If, ast.For, ast.While)) for a in ancestors(incs[0]) if a is not owner.node and any(a is x for x in ast.walk(owner.node)))):
+                problems.append(f"the index counter `{cn}` is not advanced by exactly 1 per rotation")
+        stops = [n for n in walk_function(owner.node) if isinstance(n, ast.If) and any(isinstance(b, ast.Return) for b in n.body)]
+        if not any(isinstance(n.test, ast.Compare) and len(n.test.ops) == 1 and isinstance(n.test.ops[0], ast.Is) and isinstance(n.test.comparators[0], ast.Constant)
+                   and n.test.comparators[0].value is None and any(d.value is not None and "get_parent_id(" in unparse(d.value) for d in ord_.reaching(n.test.left) ) for n in stops if isinstance(n.test, ast.Compare) and isinstance(n.test.left, ast.Name)):
+            problems.append("the recursion does not stop exactly when the state has no parent (`parent_id is None`)")
+        ctx.verdict(not problems, "R-CHAINORDER", key, tree.loc(call), "axis-angle chain: recursion from the rotated state upwards (get_parent_id) until the initial state, index pair k (k = 0, 1, ...) carries the angles of the k-th state on the way up", problems or None)
         return
     # loop idiom
     loops = [a for a in ancestors(call) if isinstance(a, ast.For)]
@@ -613,6 +638,50 @@ def check_wigner_angle_table(ctx: Check, tree: Tree) -> None:
                     None if ok else {"code": unparse(v)[:120], "elements": got})
 
 
+def check_axisangle_amplitude(ctx: Check, tree: Tree) -> None:
+    """R-SUMMAND (axis-angle): the aligned amplitude is the sum over ALL topology groups of
+    PoolSum(alignment rotations * amplitude symbol of that topology, <all alignment indices>)."""
+    fn = tree.func("ampform.helicity.align.axisangle::AxisAngleAlignment.formulate_amplitude")
+    rd = RD(fn.node)
+    rets = [r for r, _ in rd.returns if r.value is not None]
+    if len(rets) != 1 or not isinstance(rets[0].value, ast.Name):
+        raise AnalysisError(f"{fn.qual}: expected `return <accumulator>`")
+    acc = rets[0].value.id
+    loops = [n for n in walk_function(fn.node) if isinstance(n, ast.For)]
+    incs = [n for n in walk_function(fn.node) if isinstance(n, ast.AugAssign) and isinstance(n.target, ast.Name) and n.target.id == acc]
+    problems = []
+    inits = [d for d in rd.defs if d.name == acc and d.kind == "assign"]
+    if not (len(inits) == 1 and unparse(inits[0].value) in {"sp.S.Zero", "0", "sp.Integer(0)"}):
+        problems.append("the accumulator does not start at 0")
+    if len(incs) != 1 or not isinstance(incs[0].op, ast.Add):
+        problems.append(f"{len(incs)} accumulation statements (one `+=` expected)")
+    else:
+        inc = incs[0]
+        outer = [a for a in ancestors(inc) if isinstance(a, ast.For)]
+        if not outer or "group_by_topology" not in " ".join([unparse(outer[-1].iter)] + [unparse(d.value) for d in rd.closure(rd.uses(outer[-1].iter)) if isinstance(d.value, ast.AST)]):
+            problems.append("the accumulation is not inside the loop over all topology groups")
+        if any(isinstance(a, ast.If) for a in ancestors(inc) if a is not fn.node and any(a is x for x in ast.walk(fn.node))):
+            problems.append("the accumulation is conditional")
+        v = inc.value
+        if not (isinstance(v, ast.Call) and unparse(v.func).endswith("PoolSum") and v.args):
+            problems.append(f"`{unparse(v)[:50]}` is not a PoolSum")
+        else:
+            summand = v.args[0]
+            facs = _factors(summand)
+            texts = []
+            for f in facs:
+                texts.append(" ".join([unparse(f)] + [unparse(d.value) for d in rd.closure(rd.uses(f)) if isinstance(d.value, ast.AST)]))
+            has_align = any("formulate_axis_angle_alignment(" in t and ".expression" in unparse(f) for f, t in zip(facs, texts))
+            has_amp = any("create_amplitude_base(" in t for t in texts)
+            if not (len(facs) == 2 and has_align and has_amp):
+                problems.append(f"summand `{unparse(summand)[:60]}` is not <alignment sum>.expression * <amplitude symbol of the topology>")
+            stars = [a for a in v.args[1:] if isinstance(a, ast.Starred)]
+            if not (len(stars) == 1 and unparse(stars[0].value).endswith(".indices") and "formulate_axis_angle_alignment(" in " ".join(unparse(d.value) for d in rd.closure(rd.uses(stars[0].value)) if isinstance(d.value, ast.AST))):
+                problems.append("the PoolSum does not range over all indices of the alignment sum")
+    ctx.verdict(not problems, "R-SUMMAND", f"{fn.qual}::sum-over-topologies", tree.loc(fn.node),
+                "axis-angle: amplitude = sum over all topology groups of PoolSum(alignment.expression * A^topology[helicities], *alignment.indices)", problems or None)
+
+
 def run(ctx: Check, tree: Tree) -> None:
     ctx.decided += [
         "no `.remove(x)` reachable in the package can raise: each is dominated by a membership test, inside a handler, or covered by a recorded structural invariant (R-GUARD)",
@@ -635,5 +704,6 @@ def run(ctx: Check, tree: Tree) -> None:
     ctx.section(check_dpd_wiring, ctx, tree)
     ctx.section(check_rotation_chain_order, ctx, tree)
     ctx.section(check_wigner_angle_table, ctx, tree)
+    ctx.section(check_axisangle_amplitude, ctx, tree)
     ctx.section(check_dpd_summand, ctx, tree)
     ctx.section(check_spin_range_not_cached_mutable, ctx, tree)
